@@ -105,6 +105,8 @@ type SwitchNet struct {
 	heldCnt map[Addr]*atomic.Int64
 	// res: the spellings under which addresses can be dialed (see resolver)
 	res resolver
+	// filter: selective hold (see SetFilter)
+	filter func(from, to Addr, data []byte) bool
 }
 
 type heldPacket struct {
@@ -190,6 +192,34 @@ func (n *SwitchNet) Hold(addr string) {
 	if n.heldCnt[Addr(addr)] == nil {
 		n.heldCnt[Addr(addr)] = &atomic.Int64{}
 	}
+	n.mu.Unlock()
+}
+
+// SetFilter installs a selective hold: f sees every datagram when it is sent
+// (sender's home address, destination as written by the sender, payload) and
+// says whether it is to be kept back; a datagram kept back joins the Hold queue
+// of its destination (Held counts it, Release delivers it). nil removes the
+// filter. f is called without any lock of the network held and must be
+// thread-safe.
+func (n *SwitchNet) SetFilter(f func(from, to Addr, data []byte) bool) {
+	n.mu.Lock()
+	n.filter = f
+	n.mu.Unlock()
+}
+
+// Via states that the network already holds the mapping a datagram from
+// recipientHome to the service address `as` (served by e) would create: whatever
+// e sends to recipientHome is shown there as coming from `as` - for as long as
+// e serves `as`. (An endpoint that took over a service address opens sessions
+// from that address.)
+func (n *SwitchNet) Via(e *Endpoint, recipientHome, as string) {
+	n.mu.Lock()
+	m := n.via[e]
+	if m == nil {
+		m = map[Addr]Addr{}
+		n.via[e] = m
+	}
+	m[Addr(recipientHome)] = Addr(as)
 	n.mu.Unlock()
 }
 
@@ -338,7 +368,14 @@ func (e *Endpoint) deliver(data []byte, to Addr, released bool) {
 	n := e.n
 	if !released {
 		n.mu.Lock()
-		if n.hold[to] {
+		f := n.filter
+		n.mu.Unlock()
+		keep := f != nil && f(e.home, to, data)
+		n.mu.Lock()
+		if keep && n.heldCnt[to] == nil {
+			n.heldCnt[to] = &atomic.Int64{}
+		}
+		if keep || n.hold[to] {
 			n.held[to] = append(n.held[to], heldPacket{from: e, data: data})
 			n.heldCnt[to].Add(1)
 			c := n.sent[to]
